@@ -35,12 +35,19 @@ def run(tier, seed):
     # the rule is independent of every other field of the authenticator data: flag bytes with/without UV, BE, BS, ED, reserved bits
     FLAGS = [0x05, 0x01, 0x0D, 0x1D, 0x09, 0x85, 0x27, 0x19]
 
-    def present(s_stored, c, kind="ES256-P256", form="record", flags=0x05, ruv=None):
+    def present(s_stored, c, kind="ES256-P256", form=None, flags=0x05, ruv=None):
         pol, a = assertion(c, kind, flags)
+        if form is None:
+            form = ("dict", "record", "text")[(s_stored + c) % 3]
         if ruv is None:
             ruv = bool(flags & 0x04) and (s_stored + c) % 2 == 1          # the counter rule does not depend on the user-verification policy
         pol = impl.AuthPolicy(pol.challenge, pol.rp_id, pol.origin, pol.pubkey, s_stored, ruv)
         should = (c > s_stored) or (c == 0 and s_stored == 0)
+        # the counter that counts is the SIGNED one: unsigned response members carrying authenticator data with a counter above the stored one (an `attestationObject`
+        # as registration responses have one, bare copies) change nothing - in the dict / text forms, where such members can be expressed
+        import cbor2 as _cbor2
+        lure = authsim.authdata(pol.rp_id, 0x45, min(s_stored + 1, 2 ** 32 - 1), aaguid=bytes(16), cred_id=a.cred_id, cose_bytes=a.cred.cose_bytes)
+        a.extra_response = {"attestationObject": authsim.b64u(_cbor2.dumps({"fmt": "none", "attStmt": {}, "authData": lure})), "authData": authsim.b64u(lure), "signCount": s_stored + 1}
         il, ml = B.run_case(pol, a, form, "accept" if should else "reject", f"counter s={s_stored} c={c}" + ("" if flags == 0x05 else f" flags={flags:#x}") + (" uv-required" if ruv else ""))
         if il.startswith("OK"):
             new = fw.rd_i(il.split()[2])
@@ -116,6 +123,23 @@ def run(tier, seed):
                 stored = new
         chk.seen(("hist", tuple(h)))
     chk.sample({"history_of_assertion_indices": hists[0], "counters_of_assertions": ctrs})
+    # two ceremonies on two threads, one running to completion between every two lines of the other (fw.interleaved): the rule is applied to each ceremony's OWN pair (s, c)
+    pairs_ab = [((5, 5), (0, 1)), ((0, 1), (5, 5)), ((9, 3), (3, 9)), ((3, 9), (9, 3)), ((0, 0), (7, 7)), ((7, 7), (0, 0)), ((2 ** 32 - 1, 0), (0, 2 ** 32 - 1)), ((1, 2), (2, 1))]
+    for (sa, ca), (sb, cb) in pairs_ab:
+        for kind_a, kind_b in (("ES256-P256", "ES256-P256"), ("ES256-P256", "EdDSA")):
+            pa, aa = assertion(ca, kind_a)
+            pb, ab = assertion(cb, kind_b)
+            pa = impl.AuthPolicy(pa.challenge, pa.rp_id, pa.origin, pa.pubkey, sa, False)
+            pb = impl.AuthPolicy(pb.challenge, pb.rp_id, pb.origin, pb.pubkey, sb, False)
+            ra, rb = impl.verify_auth(pa, aa.as_record()), impl.verify_auth(pb, ab.as_record())
+            oa, obs, n = fw.interleaved(lambda: impl.verify_auth(pa, aa.as_record()), lambda: impl.verify_auth(pb, ab.as_record()))
+            chk.evals += 1 + len(obs)
+            wrong = [o for o in obs if o != rb]
+            if oa != ra or wrong:
+                chk.violation(f"counter rule under interleaving: ceremony (s={sa}, c={ca}) with ceremony (s={sb}, c={cb}) running between its lines gives " + (f"{oa[:50]} instead of {ra[:50]}" if oa != ra else f"the other one {wrong[0][:50]} instead of {rb[:50]}"),
+                              f"interleaved-counter s={sa} c={ca} with s={sb} c={cb}", {"A": {"stored": sa, "c": ca, "alone": ra, "interleaved": oa}, "B": {"stored": sb, "c": cb, "alone": rb, "interleaved": sorted(set(obs))}, "switch_points": n,
+                                                                                         "schedule": "B runs to completion on another thread between every two consecutive lines A executes inside the library"})
+            chk.seen(("interleaved", sa, ca, sb, cb, kind_b))
     B.close()
     fw.env_invariance(chk, "auth", "reg")          # the same seeded cases under -O / -OO, warnings-as-errors, other TZ / locale, a private CA bundle
     return fw.finish(chk, ob, br, TRUSTED,
